@@ -45,6 +45,28 @@ theorem one_le_maxVal (d : DType) : 1 ≤ d.maxVal := by cases d <;> simp [DType
 
 theorem ofCode_code (d : DType) : DType.ofCode d.code = some d := by cases d <;> rfl
 
+/-- the translated capacity check (T8g) in closed form -/
+theorem checkReprT_eq (mv : Int) (kind : String) (fm im : Int) :
+    checkReprT mv kind fm im =
+      if (if kind == "f" then decide (mv > fm) else if (kind == "i" || kind == "u") then decide (mv > im)
+          else if kind == "b" then decide (mv > 1) else false) = true
+      then .error .value else .ok mv := by
+  unfold checkReprT
+  by_cases h1 : (kind == "f") = true <;> by_cases h2 : (kind == "i" || kind == "u") = true <;>
+    by_cases h3 : (kind == "b") = true <;> simp [h1, h2, h3] <;> split <;> simp_all
+
+theorem map_ite (c : Prop) [Decidable c] (e : ErrKind) (a : Int) :
+    (if c then Except.error e else Except.ok a : Except ErrKind Int).map (fun _ => ()) =
+      if c then .error e else .ok () := by
+  by_cases h : c <;> simp [h, Except.map]
+
+set_option exponentiation.threshold 2000 in
+theorem checkRepr_eq (mv : Int) (d : DType) :
+    checkRepr mv d = if mv > d.maxVal then .error .value else .ok () := by
+  unfold checkRepr
+  rw [checkReprT_eq]
+  cases d <;> simp [DType.kind, DType.maxVal, map_ite]
+
 theorem castFrame_id (d : DType) (f : List Int) (h : ∀ v ∈ f, 0 ≤ v ∧ v ≤ d.maxVal) : castFrame d f = f := by
   unfold castFrame
   induction f with
@@ -143,7 +165,7 @@ theorem readCore_eq (st : Stored) (rq : Req) (hsub : ∀ s ∈ rq.segs, s ∈ st
   unfold readCore
   have h1 : (rq.segs.all fun s => st.segNums.contains s) = true := by
     rw [List.all_eq_true]; intro s hs; simpa using hsub s hs
-  simp only [h1, Bool.not_true, Bool.false_eq_true, ↓reduceIte, readHead_eq, bind, Except.bind, ofCode_code, checkRepr]
+  simp only [h1, Bool.not_true, Bool.false_eq_true, ↓reduceIte, readHead_eq, bind, Except.bind, ofCode_code, checkRepr_eq]
   by_cases h : ceiling st rq > (chosenDtype st rq).maxVal
   · simp [h]
   · simp [h]
